@@ -2,7 +2,7 @@
 import ast
 
 from .kai import Arr, Interp, View, interpret
-from .kutil import guard_atoms
+from .kutil import guard_atoms, returned_arrays
 from .program import AnalysisIncomplete, Ext, Func, Partial, norm
 from .sym import App, Rat, Sym, walk_atoms
 
@@ -193,7 +193,7 @@ def kernel_footprint(prog, kern, data_param=None):
     """Footprint of a loop kernel: per-axis (lo, hi) offset bounds of every read of the data array made while
     computing one output cell.  Returns (Footprint, data array name, kernel summary)."""
     k = interpret(prog, kern)
-    rets = [v for v, g in k.returns if isinstance(v, Arr)]
+    rets = returned_arrays(k)
     if len(rets) != 1:
         raise AnalysisIncomplete('%s: does not return exactly one array' % kern.qualname)
     out = rets[0]
